@@ -141,7 +141,7 @@
 (hy-repr-register [hy.models.String str hy.models.Bytes bytes] (fn [x]
   (setv r (.lstrip (_base-repr x) "ub"))
   (if (is-not None (getattr x "brackets" None))
-    f"#[{x.brackets}[{x}]{x.brackets}]"
+    (+ (_bracket-open x.brackets x) x "]" x.brackets "]")
     (+
       (if (isinstance x bytes) "b" "")
       (if (.startswith "\"" r)
@@ -196,14 +196,15 @@
   hy.models.FString
   (fn [fstring]
     (if (is-not None fstring.brackets)
-      (+ "#[" fstring.brackets "["
-         #* (lfor component fstring
-                  (if (isinstance component hy.models.String)
-                      (.replace (.replace (str component)
-                        "{" "{{")
-                        "}" "}}")
-                      (hy-repr component)))
-         "]" fstring.brackets "]")
+      (do
+        (setv content (.join "" (lfor component fstring
+          (if (isinstance component hy.models.String)
+              (.replace (.replace (str component)
+                "{" "{{")
+                "}" "}}")
+              (hy-repr component)))))
+        (+ (_bracket-open fstring.brackets content)
+           content "]" fstring.brackets "]"))
       (+ (if fstring.is-tstring "t" "f") "\""
          #* (lfor component fstring
                   :setv s (hy-repr component)
@@ -306,6 +307,11 @@
   (defn mkrepr [fmt]
     (fn [x] (.replace fmt "..." (_cat x) 1)))
   (hy-repr-register types :placeholder fmt (mkrepr fmt)))
+
+(defn _bracket-open [brackets content]
+  ; The reader discards a newline that directly follows the opening
+  ; delimiter, so a content that begins with a newline needs another.
+  (+ "#[" brackets "[" (if (.startswith content "\n") "\n" "")))
 
 (defn _cat [obj]
   (.join " " (map hy-repr obj)))
